@@ -13,6 +13,7 @@
 //	nomatch     writes the query does not select (other partition; rejected by WHERE): the reader keeps waiting and returns
 //	            empty at its (short) timeout — vs the Lean queryLoop
 //	backtoback  the same cursor waits, gets an event, waits again … through backend.Querier and through the RPC client
+//	select      api.Select (stream mode) through a Querier wrapper that lets events land between two waits
 //	pipe        a pipe worker parked before workerDone while a batch arrives: copied promptly without a later write
 package main
 
@@ -885,6 +886,215 @@ func sectionB2B(rng *vh.Rng) {
 }
 
 // ---------------------------------------------------------------------------------------------
+// the client's stream loop: api.Select(streamMode) over a Querier that lets writes land in the gaps between two waits
+
+type selRound struct {
+	Gap    int `json:"gap"`    // events that become readable after the previous answer and before this request reaches the server
+	During int `json:"during"` // events written 300 ms after this request started (during its wait)
+}
+
+type selectCase struct {
+	RPC    bool       `json:"rpc"`
+	Pos    string     `json:"pos"` // "tail" | "head"
+	Rounds []selRound `json:"rounds"`
+}
+
+// backendQuerier adapts backend.Querier to api.Querier
+type backendQuerier struct{ srv *lrsrv.Srv }
+
+func (b backendQuerier) Query(ctx context.Context, req *api.QueryRequest, res *api.QueryResult) error {
+	qr, err := b.srv.Querier.Query(ctx, req)
+	if err == io.EOF {
+		err = nil
+	}
+	if err != nil {
+		return err
+	}
+	if qr != nil {
+		*res = *qr
+	}
+	return nil
+}
+
+// gapQuerier forwards the k-th request after the writes of round k's gap are readable, starts the round's "during" write, and
+// ends the stream (cancel) when the rounds are used up
+type gapQuerier struct {
+	inner  api.Querier
+	rounds []selRound
+	k      int
+	gap    func(n int)
+	during func(n int)
+	cancel context.CancelFunc
+	wg     sync.WaitGroup // the previous round's "during" write has finished before the next request goes out
+}
+
+func (g *gapQuerier) Query(ctx context.Context, req *api.QueryRequest, res *api.QueryResult) error {
+	g.wg.Wait()
+	if g.k >= len(g.rounds) {
+		g.cancel()
+		return context.Canceled
+	}
+	r := g.rounds[g.k]
+	g.k++
+	if r.Gap > 0 {
+		g.gap(r.Gap)
+	}
+	if r.During > 0 {
+		g.wg.Add(1)
+		go func() { defer g.wg.Done(); g.during(r.During) }()
+	}
+	return g.inner.Query(ctx, req, res)
+}
+
+func runSelect(c selectCase, idx int, sec *vh.Section) {
+	dir := lrsrv.NewDir()
+	defer os.RemoveAll(dir)
+	srv, err := lrsrv.Start(dir, lrsrv.Opts{})
+	if err != nil {
+		res.Note("select: %v", err)
+		return
+	}
+	defer srv.Stop()
+	tags := "grp=sel,part=p0"
+	const stored = 3
+	var mu sync.Mutex
+	n := 0
+	wr := func(k int) {
+		mu.Lock()
+		defer mu.Unlock()
+		ms := make([]string, k)
+		for i := range ms {
+			ms[i] = fmt.Sprintf("m%d", n+i)
+		}
+		write(srv, tags, ms...)
+		n += k
+		waitConfirmed(srv, tags, n)
+	}
+	wr(stored)
+	var inner api.Querier = srv.Client
+	if !c.RPC {
+		inner = backendQuerier{srv}
+	}
+	ctx, cancel := context.WithCancel(context.Background())
+	defer cancel()
+	gq := &gapQuerier{inner: inner, rounds: c.Rounds, cancel: cancel, gap: wr,
+		during: func(k int) { time.Sleep(300 * time.Millisecond); wr(k) }}
+	var got []string
+	var gmu sync.Mutex
+	done := make(chan error, 1)
+	pos := c.Pos
+	if pos == "head" {
+		pos = ""
+	}
+	go func() {
+		done <- api.Select(ctx, gq, &api.QueryRequest{Query: "select from grp=sel limit 100", Pos: pos, Limit: 100, WaitTimeout: 1}, true,
+			func(r *api.QueryResult) {
+				gmu.Lock()
+				for _, e := range r.Events {
+					got = append(got, string(append([]byte{}, e.Message...)))
+				}
+				gmu.Unlock()
+			})
+	}()
+	select {
+	case <-done:
+	case <-time.After(time.Duration(len(c.Rounds))*2500*time.Millisecond + 10*time.Second):
+		res.SpecFail(vh.SpecFailure{Section: "select", Kind: "hang", Input: c, Impl: "api.Select did not return", Spec: "returns when its context ends", What: "the client's stream loop hangs"})
+		return
+	}
+	// SPEC: every event from the first request's position on, once, in order
+	first := 0
+	if c.Pos == "tail" {
+		first = stored + c.Rounds[0].Gap
+	}
+	total := stored
+	line := fmt.Sprintf("selectstream %d %s", stored, map[bool]string{true: "tail", false: "0"}[c.Pos == "tail"])
+	for _, r := range c.Rounds {
+		total += r.Gap + r.During
+		line += fmt.Sprintf(" %d:%d", r.Gap, r.During)
+	}
+	var want []string
+	for i := first; i < total; i++ {
+		want = append(want, fmt.Sprintf("m%d", i))
+	}
+	model, derr := vh.Batch(args.Driver, []string{line})
+	if derr != nil {
+		res.Fatal(args.Out, "driver: %v", derr)
+	}
+	var mwant []string
+	if model[0] != "-" {
+		for _, t := range strings.Split(model[0], ",") {
+			mwant = append(mwant, "m"+t)
+		}
+	}
+	res.Eval(sec, fmt.Sprint(c))
+	res.Dist(sec, fmt.Sprintf("rpc=%v pos=%s rounds=%d", c.RPC, c.Pos, len(c.Rounds)))
+	gmu.Lock()
+	g := strings.Join(got, " ")
+	gmu.Unlock()
+	eq := g == strings.Join(mwant, " ")
+	if !eq {
+		res.Mismatch(vh.Mismatch{Section: "select", Function: "selectStream: " + line, Input: c, Impl: g, Model: strings.Join(mwant, " ")})
+	}
+	if g != strings.Join(want, " ") {
+		res.SpecFail(vh.SpecFailure{Section: "select", Kind: "event-skipped-between-waits", Input: c, Impl: g, Spec: strings.Join(want, " "),
+			Model: strings.Join(mwant, " "), ImplEqModel: eq,
+			What: "api.Select in stream mode (back-to-back waits of one reader): an event that became readable between an answer and the next request — or during a wait — was not delivered exactly once, in order"})
+	}
+}
+
+func selectCases(rng *vh.Rng) []selectCase {
+	base := [][]selRound{
+		{{0, 0}, {1, 0}, {0, 1}},         // first wait expires empty, an event lands in the gap, a later one during a wait
+		{{0, 0}, {0, 0}, {2, 0}, {0, 0}}, // two empty waits, then two events in one gap
+		{{0, 1}, {1, 0}, {0, 0}},         // delivered once already, then a gap event
+		{{2, 0}, {0, 0}, {1, 0}, {0, 1}}, // events before the first request (not part of a tail stream), a gap round, a waiting round
+	}
+	var cs []selectCase
+	for i, r := range base {
+		for _, rpc := range []bool{false, true} {
+			pos := "tail"
+			if i == 3 && rpc {
+				pos = "head"
+			}
+			cs = append(cs, selectCase{RPC: rpc, Pos: pos, Rounds: r})
+		}
+	}
+	cs = append(cs, selectCase{RPC: false, Pos: "head", Rounds: []selRound{{0, 0}, {1, 0}, {0, 0}}})
+	if args.Thorough {
+		for i := 0; i < 40; i++ {
+			k := rng.Range(2, 5)
+			var rs []selRound
+			for j := 0; j < k; j++ {
+				// a round is either answered at once (something landed in the gap) or waits (then events may arrive during the wait)
+				r := selRound{Gap: rng.PickI([]int{0, 0, 1, 2})}
+				if r.Gap == 0 && !(j == 0 && i%3 == 2) {
+					r.During = rng.PickI([]int{0, 0, 1})
+				}
+				rs = append(rs, r)
+			}
+			cs = append(cs, selectCase{RPC: i%2 == 0, Pos: []string{"tail", "tail", "head"}[i%3], Rounds: rs})
+		}
+	}
+	return cs
+}
+
+func sectionSelect(rng *vh.Rng, corpus []selectCase) {
+	sec := res.Section("select", "spec-search",
+		"the documented client loop api.Select(streamMode = true, WaitTimeout 1) over backend.Querier and over the RPC client, through a Querier wrapper that makes events readable in the GAP between an answer and the next request reaching the server (and during waits): started at tail or head of a partition holding 3 events; the handler must receive every event from the first request's position on, once, in order — whatever rounds came back empty; compared with the Lean selectStream (loop fact regenerated from api/client.go); non-trivial = every case")
+	cs := append(corpus, selectCases(rng)...)
+	var wg sync.WaitGroup
+	sem := make(chan struct{}, 12)
+	for i, c := range cs {
+		wg.Add(1)
+		sem <- struct{}{}
+		go func(i int, c selectCase) { defer wg.Done(); defer func() { <-sem }(); runSelect(c, i, sec) }(i, c)
+	}
+	wg.Wait()
+	res.Done(sec)
+}
+
+// ---------------------------------------------------------------------------------------------
 // library contract on a real journal
 
 func sectionContract(rng *vh.Rng) {
@@ -1111,6 +1321,7 @@ func main() {
 	var parked []parkedCase
 	var nomatches []nomatchCase
 	var b2bs []b2bCase
+	var sels []selectCase
 	pipeReplay := false
 	load := func(path string) {
 		var d corpusDoc
@@ -1138,6 +1349,11 @@ func main() {
 			var c b2bCase
 			if json.Unmarshal(d.Input, &c) == nil && c.Parts > 0 && len(c.Delays) > 0 {
 				b2bs = append(b2bs, c)
+			}
+		case "select":
+			var c selectCase
+			if json.Unmarshal(d.Input, &c) == nil && len(c.Rounds) > 0 {
+				sels = append(sels, c)
 			}
 		case "pipe":
 			pipeReplay = true
@@ -1167,6 +1383,12 @@ func main() {
 				runB2B(c, i, sec)
 			}
 		}
+		if len(sels) > 0 {
+			sec := res.Section("select", "replay", "replay of one stream case")
+			for i, c := range sels {
+				runSelect(c, i, sec)
+			}
+		}
 		if pipeReplay {
 			d := make(chan struct{})
 			sectionPipe(d)
@@ -1192,6 +1414,7 @@ func main() {
 	sectionParked(rng.Fork("parked"), parked)
 	sectionNomatch()
 	sectionB2B(rng.Fork("b2b"))
+	sectionSelect(rng.Fork("select"), sels)
 	<-pipeDone
 	res.Write(args.Out)
 }
